@@ -54,6 +54,7 @@ type Step struct {
 	Only     string   `json:"only,omitempty"`
 	Threads  [][]Step `json:"threads,omitempty"`
 	PauseUs  int      `json:"pause_us,omitempty"`
+	Atomic   bool     `json:"atomic,omitempty"`
 }
 
 type Scenario struct {
